@@ -112,7 +112,7 @@ def body_pin(env):
         # written from the first pin into every row would pass a one-pin harness)
         extra = []
         if npin == 2:
-            extra = [(0.0 if zero else env.nonneg('q_lin_other', hi=2e5)), env.real('T_cool_other', lo=300, hi=1500), env.pos('htc_other', hi=1e7)]
+            extra = [(0.0 if (zero or env.params.get('other_unpowered')) else env.nonneg('q_lin_other', hi=2e5)), env.real('T_cool_other', lo=300, hi=1500), env.pos('htc_other', hi=1e7)]
             for mat in [m._h_clad, m._h_gap] + list(m.fuel['mat']):
                 if mat is not None:
                     mat.idx = 1
@@ -133,6 +133,11 @@ def body_pin(env):
             return
         for i in range(5):
             env.ge('%s <= %s' % (names[i], names[i + 1]), t[i + 1], t[i], key='pin_temperatures_not_ordered')
+        # the conductivity iteration of the clad has converged *for this pin* (whatever the other pins of the call do): the inner-wall
+        # temperature reported is within the tolerance of the temperature the clad conductivity was last evaluated at
+        lastT = m._h_clad.calls[-1][0]
+        env.holds('clad inner-wall temperature within the iteration tolerance (1e-3 K) of the last conductivity evaluation point of this pin',
+                  env.land(t[3] - lastT <= 1e-3, lastT - t[3] <= 1e-3), key='clad_iteration_not_converged_for_this_pin')
         # film drop: closed form q' / (2 pi r_co h)
         r2 = float(m.clad['r'][2])
         env.eq('film drop = q\' / (2 pi r_clad h)', (t[1] - t[0]) * (2 * PI * r2) * h, q, tol=1e-7, scale=1.0)
@@ -328,6 +333,9 @@ def instances(tier):
     for zero in (False, True):
         inst.append(dict(label='pin[two pins,gap=0,zones=0.0/0.5%s]' % (',zero power' if zero else ''), body=body_pin,
                          params={'gap': 0.0, 'r_frac': (0.0, 0.5), 'zero_power': zero, 'npin': 2}, max_paths=600, max_depth=6, timeout_ms=20000))
+    inst.append(dict(label='pin[two pins,the other unpowered,gap=0,zones=0.0/0.5]', body=body_pin,
+                     params={'gap': 0.0, 'r_frac': (0.0, 0.5), 'zero_power': False, 'npin': 2, 'other_unpowered': True},
+                     max_paths=600, max_depth=6, timeout_ms=20000))
     inst.append(dict(label='pin-closed-forms[two pins,gap=0,zones=0.2/0.6]', body=body_pin,
                      params={'gap': 0.0, 'r_frac': (0.2, 0.6), 'zero_power': False, 'closed_forms': True, 'npin': 2},
                      max_paths=600, max_depth=6, timeout_ms=30000))
